@@ -331,18 +331,22 @@ pub fn explore(n: usize, max_depth: usize) -> LitmusReport {
                 }
             }
         }
-        let results = par_map(&jobs, 16, |p| {
+        let mut results = par_map(&jobs, 16, |p| {
             let mut b = 0;
-            let mut o = run_sequence(n, p, quick, &mut b);
-            let mut rerun = 0;
-            if let Outcome::Discrepancy(_) = o {
-                // timing is the only thing the real side adds: a discrepancy counts only if it survives long waits
-                rerun = 1;
-                b = 0;
-                o = run_sequence(n, p, slow, &mut b);
-            }
-            (o, b, rerun)
+            let o = run_sequence(n, p, quick, &mut b);
+            (o, b, 0u64)
         });
+        // timing is the only thing the real side adds: a discrepancy counts only if it survives long waits with nothing
+        // else running (three attempts, one sequence at a time)
+        for (p, r) in jobs.iter().zip(results.iter_mut()) {
+            let mut attempts = 0;
+            while matches!(r.0, Outcome::Discrepancy(_)) && attempts < 3 {
+                attempts += 1;
+                let mut b = 0;
+                let o = run_sequence(n, p, slow, &mut b);
+                *r = (o, b, r.2 + 1);
+            }
+        }
         for (p, (o, b, rerun)) in jobs.into_iter().zip(results) {
             rep.sequences_run += 1;
             rep.transitions += 1;
